@@ -642,6 +642,9 @@ class Interp:
         elif k == "tuple":
             for i in range(len(t["elems"])):
                 self.seed_arg(st, self.add_proj(loc, i), t["elems"][i], depth + 1)
+        elif k == "param" and depth > 0:
+            # a generic payload of a guard-like struct (LockGuard<Guard>): may own holds
+            st.guards[loc_s(loc)] = (None, "?", "live")
         elif k == "ref":
             # a borrowed guard still witnesses that its lock is held
             self.seed_arg(st, self.add_proj(loc, "*"), t["ty"], depth + 1)
@@ -902,6 +905,9 @@ class Interp:
             return [("ok", st)]
         if k == "param":
             self.emit(st, {"k": "DROPP", "val": oid, "ty": t["name"]}, fn, line)
+            g = st.guards.get(oid)
+            if g is not None:
+                st.guards[oid] = (g[0], g[1], "dropped")
             return [("ok", st)]
         if k == "alias":
             g = st.guards.get(oid)
